@@ -10,7 +10,8 @@ reordered or invented by the parser without being noticed.
 AST (JSON objects; absent field = absent syntax, there is no null)
 
  module   {"k":"module","name":N,"dirs":[directive text],"ports":[port],"items":[item]}
- port     {"dir":"input|output|inout","t":"wire|reg","s":0|1,"h":H,"l":L,"n":N[,"attr":[tok]]}   no range: h = -1
+ port     {"dir":"input|output|inout","t":"wire|reg","s":0|1,"h":H,"l":L,"n":N[,"init":expr][,"attr":[tok]]}   no range: h = -1;
+          init only on an output reg (ANSI declaration with initial value)
  item     {"k":"decl","t":"wire|reg","s":0|1,"h":H,"l":L,"n":N[,"init":expr][,"attr":[tok]]}
           {"k":"memdecl","h":H,"l":L,"n":N,"lo":A,"hi":B[,"attr"]}         reg [H:L] N[A:B];
           {"k":"assign","l":lhs,"r":expr}
@@ -146,6 +147,12 @@ class _Parser:
             p["t"] = t
             p.update(self.sign_range())
             p["n"] = self.ident()
+            if self.at("="):
+                # ANSI port declaration with initial value: output reg [..] x = <constant expression> (1364-2005 A.1.3)
+                if not (d == "output" and t == "reg"):
+                    raise ParseError("only an output reg port may have an initial value")
+                self.eat("=")
+                p["init"] = self.expr()
             if attr:
                 p["attr"] = attr
             ports.append(p)
@@ -599,6 +606,9 @@ def unparse(m):
         out.extend([p["dir"], p["t"]])
         _unparse_sr(p, out)
         out.append(p["n"])
+        if "init" in p:
+            out.append("=")
+            unparse_expr(p["init"], out)
     out.extend([")", ";"])
     for it in m["items"]:
         _unparse_attr(it, out)
